@@ -771,9 +771,9 @@ pub const C12_SUBS: &[Sub] = &[
 pub fn c12_run(ctx: &Ctx) {
     run_regress(ctx, C12_SUBS);
     drive_enum(ctx, &C12_SUBS[0], 3);
-    drive_random(ctx, &C12_SUBS[1], ctx.n(30_000, 1_500_000), 1500);
+    drive_random(ctx, &C12_SUBS[1], ctx.n(30_000, 15_000_000), 1500);
     if !ctx.quick() && !ctx.failed() {
-        crate::fuzzing::drive_fuzz(ctx, "builder", 500_000);
+        crate::fuzzing::drive_fuzz(ctx, "builder", 200_000);
     }
 }
 
@@ -923,7 +923,7 @@ pub const C13_SUBS: &[Sub] = &[
 pub fn c13_run(ctx: &Ctx) {
     run_regress(ctx, C13_SUBS);
     drive_enum(ctx, &C13_SUBS[0], pools().types.len() as u64);
-    drive_random(ctx, &C13_SUBS[1], ctx.n(30_000, 1_500_000), 1500);
+    drive_random(ctx, &C13_SUBS[1], ctx.n(30_000, 15_000_000), 1500);
 }
 
 pub fn c13_finish(ctx: &Ctx) -> i32 {
@@ -1167,7 +1167,7 @@ pub fn c06_run(ctx: &Ctx) {
     run_regress(ctx, C06_SUBS);
     drive_enum(ctx, &C06_SUBS[0], 2);
     drive_enum(ctx, &C06_SUBS[1], pools().emitting.len() as u64 * 3);
-    drive_random(ctx, &C06_SUBS[2], ctx.n(20_000, 1_000_000), 2500);
+    drive_random(ctx, &C06_SUBS[2], ctx.n(20_000, 10_000_000), 2500);
 }
 
 pub fn c06_finish(ctx: &Ctx) -> i32 {
